@@ -15,6 +15,8 @@ import mir2smt as M
 from common import (BROKEN, HELD, INCONCLUSIVE, VIOLATED, Obligation, Report, Scratch, extract_fn, log)
 from native import NativeRun
 
+import c06_compound
+
 PLACEHOLDERS = ("Failure", "Uninited")      # error placeholders: both top and bottom by design, excluded from the laws
 TOWER = ["Bool", "Nat", "Int", "Ratio", "Float", "Complex"]
 
@@ -24,8 +26,10 @@ def run(tier, seed, only=None):
                  "Symbolic execution of the rustc MIR of Context::subtype_of / supertype_of / cheap_supertype_of (+ Type::eq, "
                  "is_mono_value_class) into SMT with the discriminants of two or three Type operands as solver variables over all "
                  "fieldless variants of enum Type; z3 decides that the judgement is definite, reflexive, transitive, has Never at the "
-                 "bottom and Obj at the top, and orders the numeric tower, for all pairs/triples of the fragment.  Unions, intersections, "
-                 "refinements, polymorphic and nominal types (structural_supertype_of, nominal_supertype_of) are not decided.",
+                 "bottom and Obj at the top, and orders the numeric tower, for all pairs/triples of the fragment.  Stage 2 (engine mirsem, compound/*): "
+                 "the Or / And arms of structural_supertype_of on unions and intersections of opaque member types - soundness of each combination rule "
+                 "given sound answers on the members, and the laws (T or U) :> T, T :> (T and U), commutativity and reflexivity.  Refinements, Not, "
+                 "polymorphic, structural and nominal types are not decided.",
                  partial=bool(only))
     rep.trusted += ["rustc nightly -Zunpretty=mir as the semantics of the source", "engines/mir2smt.py", "z3 " + z3.get_version_string()]
     s = Scratch("c06")
@@ -213,7 +217,10 @@ def run(tier, seed, only=None):
                "A :> B and B :> A imply A = B", "all pairs", [l, r])
 
         # --- translation validation: the encoded judgement against the real function on every concrete pair of the fragment
-        nr = NativeRun(s, "erg_compiler", "crates/erg_compiler/context/compare.rs")
+        ccases, cfinish = c06_compound.stage(rep, s, text, tier, seed, only, tsrc)
+        nr = NativeRun(s, "erg_compiler", "crates/erg_compiler/context/compare.rs", helpers=c06_compound.HELPERS)
+        for cid_, expr_ in ccases:
+            nr.add(cid_, expr_)
         for x in frag:
             for y in frag:
                 nr.add("tv_%s_%s" % (x, y), 'format!("{:?}", Context::cheap_supertype_of(&Type::%s, &Type::%s))' % (x, y))
@@ -255,6 +262,8 @@ def run(tier, seed, only=None):
             else:
                 rep.add(Obligation(base, key="translation-validation", verdict=HELD, nontrivial=False,
                                    reason="the encoded judgement equals the real cheap_supertype_of on all %d concrete pairs of the fragment (cargo test on the scratch copy)" % (len(frag) ** 2)))
+        if nat is not None:
+            cfinish(nat)
         # --- native replay of counterexamples
         if unlisted:
             res = nat
@@ -291,7 +300,7 @@ def run(tier, seed, only=None):
         rep.assumptions += [
             "fragment: the fieldless variants of enum Type except the error placeholders Failure and Uninited (Failure is both top and bottom by design)",
             "self: &Context is opaque: on this fragment every path returns from the fast table before the context is consulted (decided: cheap_supertype_of/definite)",
-            "T <: (T or U), (T and U) <: T, singleton/enum below its class, and everything structural or nominal are not decided (Type trees are out of reach of this engine)",
+            "stage 1 (mir2smt): singleton/enum below its class, refinements, polymorphic and nominal types are not decided; unions and intersections are decided in stage 2 (mirsem, compound/*)",
         ]
         rep.extra["fragment"] = frag
         rep.extra["z3_queries"] = qn[0]
